@@ -81,6 +81,12 @@ pub fn check_locks(ctx: &mut Ctx, case: &Value, t: &T, cfg: &Cfg, log: &[LockRec
     let passes = passes_of(log);
     ctx.statn("lock_events_observed", log.len() as u64);
     ctx.statn("lock_passes_observed", passes.len() as u64);
+    if !log.iter().any(|r| r.op != OP_PHASE) {
+        // nothing went through the observed mutex type (a solver that synchronises by other means):
+        // there is no lock discipline to check here; the results are checked as always
+        ctx.stat("runs_without_observed_mutex_operations");
+        return;
+    }
     if let Some(r) = log.iter().find(|r| r.op == OP_TRY_FAIL) {
         ctx.fail_prop(case, format!("a try_lock found its mutex held (kind {}, infoset {})", r.kind, r.index));
         return;
